@@ -183,16 +183,20 @@ def encodeHost (o : Oracles) (host : Str) (validate : Bool) : R Str := do
     | some l => do
       let d ← (if mem 58 host then pure true else isDigitChar o l : R Bool)
       pure d : R Bool)
-  let ipResult : Option Str :=
+  let ipResult : Option (R Str) :=
     if looksIP then
       let (rawIp, sep, zone) := partition 37 host
       match parseIP rawIp with
-      | some (.v6 h) => some (if sep then [91] ++ ipv6ToStr h ++ [37] ++ zone ++ [93] else [91] ++ ipv6ToStr h ++ [93])
-      | some (.v4 ip) => some (if sep then ipv4ToStr ip ++ [37] ++ zone else ipv4ToStr ip)
+      | some ip =>
+        -- the zone id is copied verbatim, so with validation on it is checked like a reg-name
+        if validate && sep && notRegName (lower zone) then some (.error .valueError)
+        else match ip with
+          | .v6 h => some (pure (if sep then [91] ++ ipv6ToStr h ++ [37] ++ zone ++ [93] else [91] ++ ipv6ToStr h ++ [93]))
+          | .v4 ip => some (pure (if sep then ipv4ToStr ip ++ [37] ++ zone else ipv4ToStr ip))
       | none => none
     else none
   match ipResult with
-  | some r => pure r
+  | some r => r
   | none =>
     if isAscii host then
       let h := lower host
